@@ -418,6 +418,13 @@ let shapes : (string * (string * M.node list) list * G.custom list) list =
                             "main", [ M.NExtends (lit_str "mid"); block "c" [ text "leaf"; print (call "parent" []) ] ] ], [ f1 ];
     "inherited-parent-body", [ "base", [ text "head"; print (call "fn1" [ lit_int 1 ]); block "c" [ text "b" ]; print (filt (lit_str "tail") "sf0" []) ]; "main", [ M.NExtends (lit_str "base"); block "c" [ text "c" ] ] ], [ f1; s0 ];
     "macro-local", [ "main", [ macro "m" [ ("a", None) ] [ text "["; print (filt (var "a") "sf0" []); text "]" ]; text "x"; print (call "m" [ lit_int 1 ]); text "y" ] ], [ s0 ];
+    (* a macro call where a text or a value is wanted (operand of ~ and of ==, hash value, argument of a filter): whether or not
+       the body runs there, a callback of the body that runs and fails is a failure of the render *)
+    "macro-as-concat-operand", [ "main", [ macro "m" [ ("a", None) ] [ text "["; print (filt (var "a") "sf0" []); text "]" ]; text "x"; print (M.EBin (M.BConcat, call "m" [ lit_int 1 ], lit_str "!")); text "y" ] ], [ s0 ];
+    "macro-as-compared-operand", [ "lib", [ macro "m" [ ("a", None) ] [ print (call "fn1" [ var "a" ]) ] ];
+                                   "main", [ M.NImport (lit_str "lib", bs "L"); forv "i" (var "xs") [ ifn (M.EBin (M.BEq, M.EModCall (var "L", bs "m", [ var "i" ]), lit_str "b")) [ text "T" ] [ text "F" ] ] ] ], [ f1 ];
+    "macro-as-filter-operand", [ "main", [ macro "m" [] [ print (call "fn1" [ lit_int 2 ]) ]; text "x"; print (filt (call "m" []) "upper" []); print (filt (call "m" []) "length" []); text "y" ] ], [ f1 ];
+    "macro-as-hash-value", [ "main", [ macro "m" [] [ print (filt (lit_str "v") "sf0" []) ]; M.NSet (bs "h", M.EHash [ (lit_str "k", call "m" []) ]); print (filt (filt (var "h") "keys" []) "join" []); print (M.EBin (M.BConcat, M.EAttr (var "h", bs "k"), lit_str "")) ] ], [ s0 ];
     "macro-self", [ "main", [ macro "m" [ ("a", None) ] [ print (call "fn1" [ var "a" ]) ]; text "x"; print (M.EModCall (var "_self", bs "m", [ lit_int 1 ])) ] ], [ f1 ];
     "macro-import", [ "lib", [ macro "m" [ ("a", Some (call "fn1" [ lit_int 9 ])) ] [ print (filt (var "a") "sf0" []) ] ]; "main", [ M.NImport (lit_str "lib", bs "L"); text "x"; print (M.EModCall (var "L", bs "m", [])) ] ], [ f1; s0 ];
     "macro-from", [ "lib", [ macro "m" [ ("a", None) ] [ print (filt (var "a") "sf0" []) ] ]; "main", [ M.NFrom (lit_str "lib", [ (bs "m", bs "m") ]); text "x"; print (call "m" [ lit_int 1 ]) ] ], [ s0 ];
